@@ -1297,6 +1297,10 @@ def _stack(interp, name, args, kw, st, node):
         # [ (r, c) blocks ] stacked along axis 0 : rows = n*r
         if base in ("concatenate", "vstack") and ax == 0:
             if len(sh) == 2 and base == "vstack":
+                # 1-D rows stacked: the matrix whose rows they are (the form a row-by-row filled buffer has too)
+                rows_ = A.as_arr(seq)
+                if rows_.kind == "arr" and rows_.shape is not None and len(rows_.shape) == 2:
+                    return rows_
                 nsh = (sh[0], sh[1])
             elif len(sh) == 2 and base == "concatenate":
                 nsh = (sh[0].mul(sh[1]),)
